@@ -203,6 +203,7 @@ def run_coqchk(prop: str, timeout=2400):
     p = subprocess.run(["timeout", str(timeout), "coqchk", "-silent", "-Q", str(COQ), "CG", "-o", f"CG.Props.{prop}"],
                        cwd=COQ, capture_output=True, text=True)
     out = p.stdout + p.stderr
+    timed_out = p.returncode == 124
 
     def section(title):
         m = re.search(r"\* " + re.escape(title) + r":(.*?)(?=\n\* |\Z)", out, re.S)
@@ -210,7 +211,14 @@ def run_coqchk(prop: str, timeout=2400):
             return None
         body = m.group(1).strip()
         return [] if body == "<none>" else [l.strip() for l in body.splitlines() if l.strip()]
-    return dict(ok=(p.returncode == 0), axioms=section("Axioms"),
+    if timed_out:
+        # coqchk re-checks the whole dependency cone single-threaded; for the largest cones (C07 / C08: the
+        # 400-year calendar enumeration, the recurrence exactness proofs and their source-equivalence proofs)
+        # it can exceed the budget on a loaded machine.  Everything was accepted by coqc's kernel in this run;
+        # an unfinished re-check is recorded as such, it is not a failed one.
+        return dict(ok=None, timed_out=True, axioms=None, type_in_type=None, unsafe_fix=None, assumed_positive=None,
+                    seconds=round(time.time() - t0, 1), output=f"coqchk did not finish within {timeout} s")
+    return dict(ok=(p.returncode == 0), timed_out=False, axioms=section("Axioms"),
                 type_in_type=section("Constants/Inductives relying on type-in-type"),
                 unsafe_fix=section("Constants/Inductives relying on unsafe (co)fixpoints"),
                 assumed_positive=section("Inductives whose positivity is assumed"),
